@@ -4,6 +4,7 @@ import (
 	"fmt"
 	"iter"
 	"strings"
+	"sync"
 
 	"github.com/elk-language/elk/bitfield"
 	"github.com/elk-language/elk/ds"
@@ -457,6 +458,26 @@ func (m *Method) IsMacro() bool {
 func (m *Method) SetMacro(val bool) *Method {
 	m.SetFlag(METHOD_MACRO_FLAG, val)
 	return m
+}
+
+// Guards Method.Body while method bodies are checked and compiled concurrently:
+// the body of a method is set by the goroutine that checks it,
+// while call sites in other bodies look it up to bind calls statically.
+var methodBodyMutex sync.RWMutex
+
+// Thread-safe setter of Body
+func (m *Method) SetBody(body value.Method) {
+	methodBodyMutex.Lock()
+	m.Body = body
+	methodBodyMutex.Unlock()
+}
+
+// Thread-safe getter of Body
+func (m *Method) GetBody() value.Method {
+	methodBodyMutex.RLock()
+	defer methodBodyMutex.RUnlock()
+
+	return m.Body
 }
 
 func (m *Method) HasDefer() bool {
